@@ -340,5 +340,7 @@ def _run(ctx):
 
 def run(ctx):
     _run(ctx)
+    import prop_c07
+    prop_c07.default_is_new(ctx, ctx.facts("default"))
     import readerrules
     readerrules.run(ctx, ctx.facts("default"), ("R1",))
